@@ -1,8 +1,7 @@
 #!/bin/bash
-# try_seed.sh <seed-name> <ID> [tier] : apply seeded/<name>/patch.diff to /repo, run ./check, undo, re-run on the clean tree
-NAME=$1; ID=$2; TIER=${3:-quick}
-cd /repo && git apply /verif/seeded/$NAME/patch.diff || exit 2
-cd /verif && ./check $ID $TIER 2>&1 | grep -v "^KNOWN-FINDING" | tail -4; rc=${PIPESTATUS[0]}
-git -C /repo checkout -- .
-echo "seed $NAME on $ID $TIER -> rc=$rc"
-./check $ID quick >/dev/null 2>&1 || echo "WARNING: clean re-run of $ID did not exit 0"
+# try_seed.sh <seed-name> : run one seeded change through the quick check of its property, in scratch copies of /repo and
+# /verif (see run_all_seeds.sh; /repo is never patched), and print the verdict row without touching seeded/RESULTS.tsv
+r=$(mktemp)
+RESULTS_OUT=$r "$(dirname "$0")/run_all_seeds.sh" "$1" >/dev/null
+tail -n +2 $r
+rm -f $r
